@@ -48,7 +48,19 @@ Representation choices (each is a faithful re-encoding, not a simplification of 
   `PlayerState.parent = None` on removal (only reachable through a dangling pointer),
   artist/album/genre/series… (same path as `title`), media type.
 * The listener: `notified` is the truth value of `_state_updated`'s test; the harness always
-  installs a listener.
+  installs a listener.  `stepW` is the transcription that keeps the OBSERVATION POINT: a
+  listener woken by `await self.listener.state_updated()` runs at that very point of the
+  handler and reads the manager as it is *then* (this is what `MrpPushUpdater.state_updated`
+  does: it calls `metadata.playing()` and publishes the result).  `stepW` therefore returns
+  the final state and the state at the wake-up (if any); `stepG` is its projection to
+  (final state, woken?) — `Lemmas.stepW_eq`.
+* proto2 presence: the `W…` structures mirror the protobuf messages field by field with
+  `Option` = "field set?"; `decode` says what an unset field means *as the code reads it*:
+  fields read through `HasField` keep their `Option` (playbackState, supportedCommands,
+  playbackQueue, every metadata field), fields read without `HasField` take the proto2
+  default (bundleIdentifier, identifier, `PlaybackQueue.location`, `CommandInfo.command /
+  shuffleMode / repeatMode` — defaults regenerated from the descriptors in Gen), and
+  `displayName` goes through Python's `x or y` (unset and "" alike).
 -/
 namespace PyatvModel.C11
 open PyatvModel.Gen.C11
@@ -141,6 +153,67 @@ inductive Msg
   | removePlayer (p : Path)
   | setDefaultSupportedCommands (p : Path) (cmds : List Cmd)
   deriving DecidableEq, Repr
+
+/-! ## proto2 presence (what the wire carries) and how the handlers read it -/
+
+structure WPath where
+  bundle : Option Nat          -- playerPath.client.bundleIdentifier / client.bundleIdentifier
+  cname : Option Nat           -- ….displayName   (`some 0` = set to "")
+  player : Option Nat          -- playerPath.player.identifier
+  deriving DecidableEq, Repr
+
+structure WItem where
+  ident : Option Nat           -- ContentItem.identifier
+  md : Meta                    -- ContentItem.metadata (an unset sub-message reads as all-unset)
+  deriving DecidableEq, Repr
+
+structure WCmd where
+  command : Option Nat
+  shuffleMode : Option Nat
+  repeatMode : Option Nat
+  deriving DecidableEq, Repr
+
+inductive WMsg
+  | setState (p : WPath) (pstate : Option PS) (cmds : Option (List WCmd))
+      (queue : Option (Option Nat × List WItem))
+  | contentItemUpdate (p : WPath) (items : List WItem)
+  | setNowPlayingClient (bundle : Option Nat) (cname : Option Nat)
+  | setNowPlayingPlayer (p : WPath)
+  | updateClient (bundle : Option Nat) (cname : Option Nat)
+  | removeClient (bundle : Option Nat) (cname : Option Nat)
+  | removePlayer (p : WPath)
+  | setDefaultSupportedCommands (p : WPath) (cmds : List WCmd)
+  deriving DecidableEq, Repr
+
+/-- `client.displayName or self.display_name`: unset and "" are both falsy -/
+def decodeName : Option Nat → Option Nat
+  | some 0 => none
+  | x => x
+
+def WPath.decode (p : WPath) : Path :=
+  ⟨p.bundle.getD 0, decodeName p.cname, p.player.getD 0⟩
+
+/-- `item.identifier` is read without `HasField` -/
+def WItem.decode (i : WItem) : Item := ⟨i.ident.getD 0, i.md⟩
+
+/-- `cmd.command`, `info.shuffleMode`, `info.repeatMode` are read without `HasField` -/
+def WCmd.decode (c : WCmd) : Cmd :=
+  ⟨c.command.getD defCommand, c.shuffleMode.getD defShuffleMode, c.repeatMode.getD defRepeatMode⟩
+
+/-- `self.location = queue.location` (no `HasField`): an unset location is the default -/
+def decodeQueue (q : Option Nat × List WItem) : Nat × List Item :=
+  (q.1.getD defLocation, q.2.map WItem.decode)
+
+def WMsg.decode : WMsg → Msg
+  | .setState p ps cmds q =>
+    .setState p.decode ps (cmds.map (·.map WCmd.decode)) (q.map decodeQueue)
+  | .contentItemUpdate p us => .contentItemUpdate p.decode (us.map WItem.decode)
+  | .setNowPlayingClient b n => .setNowPlayingClient (b.getD 0) (decodeName n)
+  | .setNowPlayingPlayer p => .setNowPlayingPlayer p.decode
+  | .updateClient b n => .updateClient (b.getD 0) (decodeName n)
+  | .removeClient b n => .removeClient (b.getD 0) (decodeName n)
+  | .removePlayer p => .removePlayer p.decode
+  | .setDefaultSupportedCommands p cmds => .setDefaultSupportedCommands p.decode (cmds.map WCmd.decode)
 
 /-- Python `a or b` on optional strings where the empty string is already `none` -/
 def pyOr (a b : Option Nat) : Option Nat :=
@@ -356,6 +429,66 @@ def Mgr.serving (s : Mgr) : Option (Nat × Nat) :=
     match s.clients b with
     | none => none
     | some c => some (b, match c.active with | some (i, _) => i | none => defaultPlayer)
+
+/-! ### the same handlers with the observation point of the wake-up -/
+
+/-- `await self._state_updated(client, player)` at this point of a handler: when the test
+    passes the listener runs *now* and sees the manager as it is at this moment. -/
+def wakeAt (s : Mgr) (client : Option (Nat × Nat)) (player : Option Nat) : Option Mgr :=
+  if stateUpdated s client player then some s else none
+
+def removePlayerW (fixed : Bool) (s : Mgr) (p : Path) : Mgr × Option Mgr :=
+  let (s1, c, _) := getPlayer s p
+  if p.player ≠ 0 then
+    let c1 := { c with players := upd c.players p.player none }
+    let wasActive := if fixed then c.activeIdent == p.player else c1.activeIdent == p.player
+    if wasActive then
+      let s2 := s1.setClient p.bundle { c1 with active := none }
+      (s2, wakeAt s2 (some (p.bundle, c.h)) none)          -- the await is the last statement
+    else
+      (s1.setClient p.bundle c1, none)
+  else (s1, none)
+
+/-- one message through its handler: (state when the handler has returned, state the listener
+    saw when it was woken — `none` if it was not).  In every handler of the transcribed tree
+    `await self._state_updated(…)` is the last statement. -/
+def stepW (fixed : Bool) (s : Mgr) : Msg → Mgr × Option Mgr
+  | .setState p ps cmds q =>
+    let (s1, c, pl) := getPlayer s p
+    let pl' := { pl with info := pl.info.handleSetState ps cmds q }
+    let s2 := s1.setClient p.bundle { c with players := upd c.players p.player (some pl') }
+    (s2, wakeAt s2 none (some p.player))
+  | .contentItemUpdate p us =>
+    let (s1, c, pl) := getPlayer s p
+    let pl' := { pl with info := pl.info.handleContentItemUpdate us }
+    let s2 := s1.setClient p.bundle { c with players := upd c.players p.player (some pl') }
+    (s2, wakeAt s2 none (some p.player))
+  | .setNowPlayingClient b n =>
+    let (s1, c) := getClient s b n
+    let s2 := { s1 with active := some (b, c.h) }
+    (s2, wakeAt s2 none none)
+  | .setNowPlayingPlayer p =>
+    let (s1, c, pl) := getPlayer s p
+    let s2 := s1.setClient p.bundle { c with active := some (p.player, pl.h) }
+    (s2, wakeAt s2 (some (p.bundle, c.h)) none)
+  | .updateClient b n =>
+    let (s1, c) := getClient s b n
+    let s2 := s1.setClient b { c with name := pyOr n c.name }
+    (s2, wakeAt s2 (some (b, c.h)) none)
+  | .removeClient b _ =>
+    match s.clients b with
+    | none => (s, none)
+    | some c =>
+      let s1 := { s with clients := upd s.clients b none }
+      if s.active == some (b, c.h) then
+        let s2 := { s1 with active := none }               -- `self._active_client = None` …
+        (s2, wakeAt s2 none none)                          -- … then `await self._state_updated()`
+      else (s1, none)
+  | .removePlayer p => removePlayerW fixed s p
+  | .setDefaultSupportedCommands p cmds =>
+    let (s1, c) := getClient s p.bundle p.cname
+    let s2 := s1.setClient p.bundle { c with cmds := cmds }
+    (s2, wakeAt s2 none none)
 
 def reach (msgs : List Msg) : Mgr := msgs.foldl (fun s m => (step s m).1) Mgr.init
 def reachPinned (msgs : List Msg) : Mgr := msgs.foldl (fun s m => (stepPinned s m).1) Mgr.init
